@@ -10,12 +10,15 @@ import (
 	"encoding/json"
 	"os"
 	"testing"
+	"time"
 
 	"github.com/nuts-foundation/go-did/did"
 	"github.com/nuts-foundation/go-stoabs"
 	"github.com/nuts-foundation/nuts-node/crypto"
 	"github.com/nuts-foundation/nuts-node/crypto/hash"
 	"github.com/nuts-foundation/nuts-node/network/dag"
+	"github.com/nuts-foundation/nuts-node/network/dag/tree"
+	"github.com/nuts-foundation/nuts-node/network/transport/v2/gossip"
 	"github.com/nuts-foundation/nuts-node/network/transport/grpc"
 	"github.com/nuts-foundation/nuts-node/test/io"
 	"github.com/nuts-foundation/nuts-node/vdr/resolver"
@@ -97,8 +100,143 @@ func TestVerifC19(t *testing.T) {
 		return "ok"
 	}
 
+	// ---- every handler × wire-reachable field combinations (empty / short / oversized byte fields, zero numbers, unknown or
+	// LIVE conversation ids, Start >= End, garbage IBLT/transactions). Handlers are called synchronously (Handle would start
+	// goroutines whose panics cannot be observed). The state/sender/gossip collaborators are permissive mocks.
+	envCtrl := gomock.NewController(t)
+	est := dag.NewMockState(envCtrl)
+	est.EXPECT().CorrectStateDetected().AnyTimes()
+	est.EXPECT().IncorrectStateDetected().AnyTimes()
+	est.EXPECT().Notifier(gomock.Any(), gomock.Any(), gomock.Any()).Return(dag.NewMockNotifier(envCtrl), nil).AnyTimes()
+	est.EXPECT().GetTransaction(gomock.Any(), tx.Ref()).Return(tx, nil).AnyTimes()
+	est.EXPECT().GetTransaction(gomock.Any(), gomock.Any()).Return(nil, dag.ErrTransactionNotFound).AnyTimes()
+	est.EXPECT().WritePayload(gomock.Any(), gomock.Any(), gomock.Any(), gomock.Any()).Return(nil).AnyTimes()
+	est.EXPECT().ReadPayload(gomock.Any(), gomock.Any()).Return(payload, nil).AnyTimes()
+	est.EXPECT().IsPresent(gomock.Any(), tx.Ref()).Return(true, nil).AnyTimes()
+	est.EXPECT().IsPresent(gomock.Any(), gomock.Any()).Return(false, nil).AnyTimes()
+	est.EXPECT().FindBetweenLC(gomock.Any(), gomock.Any(), gomock.Any()).Return([]dag.Transaction{tx}, nil).AnyTimes()
+	est.EXPECT().XOR(gomock.Any()).Return(hash.SHA256Sum([]byte("xor")), uint32(7)).AnyTimes()
+	est.EXPECT().IBLT(gomock.Any()).DoAndReturn(func(uint32) (tree.Iblt, uint32) { return *tree.NewIblt(dag.IbltNumBuckets), 7 }).AnyTimes()
+	snd := NewMockmessageSender(envCtrl)
+	snd.EXPECT().sendState(gomock.Any(), gomock.Any(), gomock.Any()).Return(nil).AnyTimes()
+	snd.EXPECT().sendTransactionList(gomock.Any(), gomock.Any(), gomock.Any()).Return(nil).AnyTimes()
+	snd.EXPECT().sendTransactionListQuery(gomock.Any(), gomock.Any()).Return(nil).AnyTimes()
+	snd.EXPECT().sendTransactionRangeQuery(gomock.Any(), gomock.Any(), gomock.Any()).Return(nil).AnyTimes()
+	snd.EXPECT().sendTransactionSet(gomock.Any(), gomock.Any(), gomock.Any(), gomock.Any(), gomock.Any()).Return(nil).AnyTimes()
+	snd.EXPECT().sendGossipMsg(gomock.Any(), gomock.Any(), gomock.Any(), gomock.Any()).Return(nil).AnyTimes()
+	gm := gossip.NewMockManager(envCtrl)
+	gm.EXPECT().GossipReceived(gomock.Any(), gomock.Any()).AnyTimes()
+	ecfg := DefaultConfig()
+	ecfg.Datadir = io.TestDirectory(t)
+	ep := New(ecfg, did.DID{}, est, resolver.NewMockDIDResolver(envCtrl), crypto.NewMockDecrypter(envCtrl), nil, stoabs.NewMockKVStore(envCtrl)).(*protocol)
+	ep.sender, ep.gManager = snd, gm
+	ep.cMan = newConversationManager(time.Minute)
+	ep.listHandler = newTransactionListHandler(context.Background(), ep.handleTransactionList)
+	bytesOf := func(k string) []byte {
+		switch k {
+		case "nil":
+			return nil
+		case "empty":
+			return []byte{}
+		case "short":
+			return []byte{1, 2, 3}
+		case "ref":
+			return tx.Ref().Slice()
+		case "other":
+			return hash.SHA256Sum([]byte("x")).Slice()
+		case "long":
+			return make([]byte, 33)
+		case "txdata":
+			return tx.Data()
+		case "iblt-empty":
+			b, _ := tree.NewIblt(dag.IbltNumBuckets).MarshalBinary()
+			return b
+		case "iblt-6":
+			b, _ := tree.NewIblt(6).MarshalBinary()
+			return b
+		case "garbage":
+			return []byte("\x00\xff garbage \x7f")
+		}
+		return []byte(k)
+	}
+	envelopeHandler := func(in string) string {
+		var c struct {
+			Msg                    string
+			Cid                    string // "live" (a conversation started by this node) | "unknown" | "empty"
+			A, B, C2               string // byte-field selectors
+			N1, N2, N3             uint32
+			List                   []string
+		}
+		if json.Unmarshal([]byte(in), &c) != nil {
+			return "err:harness"
+		}
+		var list [][]byte
+		for _, l := range c.List {
+			list = append(list, bytesOf(l))
+		}
+		cid := func(req checkable) []byte {
+			switch c.Cid {
+			case "live":
+				conv := ep.cMan.startConversation(req, peer)
+				if conv == nil {
+					return nil
+				}
+				return conv.conversationID.slice()
+			case "unknown":
+				return newConversationID().slice()
+			}
+			return nil
+		}
+		var err error
+		bg := context.Background()
+		switch c.Msg {
+		case "Gossip":
+			err = ep.handleGossip(bg, conn, &Envelope{Message: &Envelope_Gossip{&Gossip{XOR: bytesOf(c.A), LC: c.N1, Transactions: list}}})
+		case "State":
+			err = ep.handleState(bg, conn, &Envelope{Message: &Envelope_State{&State{ConversationID: bytesOf(c.B), XOR: bytesOf(c.A), LC: c.N1}}})
+		case "TransactionSet":
+			id := cid(&Envelope_State{State: &State{XOR: bytesOf("ref"), LC: c.N1}})
+			err = ep.handleTransactionSet(bg, conn, &Envelope{Message: &Envelope_TransactionSet{&TransactionSet{ConversationID: id, LCReq: c.N1, LC: c.N2, IBLT: bytesOf(c.A)}}})
+		case "TransactionListQuery":
+			err = ep.handleTransactionListQuery(bg, conn, &Envelope{Message: &Envelope_TransactionListQuery{&TransactionListQuery{ConversationID: bytesOf(c.B), Refs: list}}})
+		case "TransactionRangeQuery":
+			err = ep.handleTransactionRangeQuery(bg, conn, &Envelope{Message: &Envelope_TransactionRangeQuery{&TransactionRangeQuery{ConversationID: bytesOf(c.B), Start: c.N1, End: c.N2}}})
+		case "TransactionList":
+			var txs []*Transaction
+			for _, l := range list {
+				txs = append(txs, &Transaction{Data: l, Payload: bytesOf(c.A)})
+			}
+			if c.C2 == "niltx" {
+				txs = append(txs, &Transaction{})
+			}
+			id := cid(&Envelope_TransactionListQuery{TransactionListQuery: &TransactionListQuery{Refs: [][]byte{tx.Ref().Slice()}}})
+			err = ep.handleTransactionList(bg, conn, &Envelope{Message: &Envelope_TransactionList{&TransactionList{ConversationID: id, Transactions: txs, TotalMessages: c.N1, MessageNumber: c.N2}}})
+		case "TransactionListFromRange":
+			var txs []*Transaction
+			for _, l := range list {
+				txs = append(txs, &Transaction{Data: l})
+			}
+			id := cid(&Envelope_TransactionRangeQuery{TransactionRangeQuery: &TransactionRangeQuery{Start: 0, End: 10}})
+			err = ep.handleTransactionList(bg, conn, &Envelope{Message: &Envelope_TransactionList{&TransactionList{ConversationID: id, Transactions: txs, TotalMessages: c.N1, MessageNumber: c.N2}}})
+		case "TransactionPayloadQuery":
+			err = ep.handleTransactionPayloadQuery(bg, conn, &Envelope{Message: &Envelope_TransactionPayloadQuery{&TransactionPayloadQuery{ConversationID: bytesOf(c.B), TransactionRef: bytesOf(c.A)}}})
+		case "Diagnostics":
+			err = ep.handleDiagnostics(bg, conn, &Envelope{Message: &Envelope_DiagnosticsBroadcast{&Diagnostics{}}})
+		default:
+			return "err:harness"
+		}
+		if err != nil {
+			return "err"
+		}
+		return "ok"
+	}
+
 	replay, isReplay := c19ReadOps()
 	for _, op := range replay {
+		if op["op"] == "x.v2.envelope" {
+			in, _ := op["input"].(string)
+			o.explore("v2.envelope", in, func() string { return envelopeHandler(in) })
+		}
 		if op["op"] == "x.v2.handleTransactionPayload" {
 			in, _ := op["input"].(string)
 			o.explore("v2.handleTransactionPayload", in, func() string { return handler(in) })
@@ -121,4 +259,57 @@ func TestVerifC19(t *testing.T) {
 			}
 		}
 	}
+	// envelope case table
+	sel := []string{"nil", "empty", "short", "ref", "other", "long", "garbage"}
+	nums := []uint32{0, 1, 7, 511, 512, 4294967295}
+	runE := func(m map[string]any, kind string) {
+		b, _ := json.Marshal(m)
+		in := string(b)
+		o.dist["v2-envelope:"+kind]++
+		o.explore("v2.envelope", in, func() string { return envelopeHandler(in) })
+	}
+	lists := [][]string{nil, {}, {"ref"}, {"short"}, {"empty"}, {"nil"}, {"ref", "ref"}, {"ref", "other", "long", "short"}, {"txdata"}, {"garbage"}, {"txdata", "txdata"}}
+	for _, a := range sel {
+		for _, n := range nums {
+			for _, l := range lists {
+				runE(map[string]any{"Msg": "Gossip", "A": a, "N1": n, "List": l}, "Gossip")
+			}
+			for _, b := range []string{"nil", "short", "ref"} {
+				runE(map[string]any{"Msg": "State", "A": a, "B": b, "N1": n}, "State")
+			}
+		}
+		for _, b := range []string{"nil", "short", "ref"} {
+			runE(map[string]any{"Msg": "TransactionPayloadQuery", "A": a, "B": b}, "TransactionPayloadQuery")
+		}
+	}
+	for _, cidK := range []string{"live", "unknown", "empty"} {
+		for _, ib := range []string{"nil", "empty", "short", "iblt-empty", "iblt-6", "garbage"} {
+			for _, n1 := range nums {
+				for _, n2 := range []uint32{0, 7, 4294967295} {
+					runE(map[string]any{"Msg": "TransactionSet", "Cid": cidK, "A": ib, "N1": n1, "N2": n2}, "TransactionSet")
+				}
+			}
+		}
+		for _, l := range lists {
+			for _, tot := range []uint32{0, 1, 2} {
+				for _, num := range []uint32{0, 1, 2, 3} {
+					for _, c2 := range []string{"", "niltx"} {
+						runE(map[string]any{"Msg": "TransactionList", "Cid": cidK, "A": "nil", "List": l, "N1": tot, "N2": num, "C2": c2}, "TransactionList")
+					}
+					runE(map[string]any{"Msg": "TransactionListFromRange", "Cid": cidK, "List": l, "N1": tot, "N2": num}, "TransactionList(range)")
+				}
+			}
+		}
+	}
+	for _, l := range lists {
+		for _, b := range []string{"nil", "short", "ref"} {
+			runE(map[string]any{"Msg": "TransactionListQuery", "B": b, "List": l}, "TransactionListQuery")
+		}
+	}
+	for _, n1 := range nums {
+		for _, n2 := range nums {
+			runE(map[string]any{"Msg": "TransactionRangeQuery", "B": "ref", "N1": n1, "N2": n2}, "TransactionRangeQuery")
+		}
+	}
+	runE(map[string]any{"Msg": "Diagnostics"}, "Diagnostics")
 }
